@@ -2,7 +2,7 @@
 import vf, gen, spec
 
 ID = 'C02'
-FLAVORS = ['default']
+FLAVORS = ['default', 'strict']
 RULE = ('messages of 1..6 units whose headers are drawn from short/long spellings in either case, with/without leading colon, optional keywords present/absent, numeric suffixes, '
         'undefined and common headers, over 8 tables (incl. overlapping patterns, shuffled order); each unit optionally carries a numeric parameter; handlers report the matched tag, '
         'the effective header, SCPI_CommandNumbers and SCPI_IsCmd. Non-trivial: >= 2 units of which at least one is relative (no leading colon, not common); distinct = distinct scenario lines.')
@@ -21,6 +21,8 @@ TABLES = [
     # keywords with a digit or an underscore in the capital part (the short form ends where the lower-case letters begin), next to
     # entries that spell only the letters before it
     [b"SOURce:BB:W3GPp:STATe", b"SOURce:BB:W:STATe", b"SYSTem:COMMunicate:RS232:BAUD", b"SYSTem:COMMunicate:RS:BAUD?", b"OUT_Aux:LEVel", b"OUTPut:LEVel?", b"CH1x:ON", b"*TST?"],
+    # the letters at both ends of the alphabet in either case (a hand-written case folding with an off-by-one bound)
+    [b"SENSe:ZERO", b"SENSe:Z#", b"ZOOM:AZimuth?", b"AAA:ZZZ", b"*ZZZ?", b"Zz"],
 ]
 HEADS = {
     0: [b"TEST:A?", b"test:a?", b":TEST:B?", b"B?", b"A?", b"SUB:C?", b"C?", b"D", b"TEST:SUB:D", b":TEST:SUB:C?", b"*IDN?", b"*idn?", b"*RST", b"II", b"ii", b"SYST:ERR?", b"SYSTEM:ERROR:NEXT?", b"ERR?", b"NEXT?", b"FOO", b"FOO:BAR?", b"TEST:A", b"TES:A?", b"*IDN"],
@@ -33,10 +35,12 @@ HEADS = {
     6: [b"SOUR:BB:W3GP:STAT", b"SOUR:BB:W:STAT", b"SOUR:BB:W3GPP:STAT", b"SOUR:BB:W3:STAT", b"sour:bb:w3gp:stat", b"BB:W3GP:STAT", b"W:STAT", b"W3GP:STAT", b"STAT", b"SYST:COMM:RS232:BAUD",
         b"SYST:COMM:RS:BAUD", b"SYST:COMM:RS:BAUD?", b"RS232:BAUD", b"RS:BAUD", b"BAUD", b"OUT_A:LEV", b"OUT:LEV", b"OUT_AUX:LEV", b"out_a:lev", b"OUT:LEV?", b"OUTP:LEV?", b"OUT_:LEV",
         b"CH1:ON", b"CH:ON", b"CH1X:ON", b"CH1x:on", b"ON", b"*TST?", b":SOUR:BB:W3GP:STAT", b":OUT_A:LEV"],
+    7: [b"SENS:ZERO", b"sens:zero", b"Sense:Zero", b"SENS:Z15", b"sens:z15", b"sens:z", b"ZERO", b"zero", b"ZOOM:AZ?", b"zoom:az?", b"zoom:azimuth?", b"AZIM?", b"aaa:zzz", b"AAA:ZZZ", b"aAa:zZz",
+        b"*ZZZ?", b"*zzz?", b"ZZ", b"zz", b"zZ", b"Z", b"AAA:ZZ", b"SENS:YERO"],
 }
 
 
-def make(R, with_iscmd):
+def make(R, with_iscmd, nullcb=False):
     ti = R.randrange(len(TABLES))
     pats = TABLES[ti][:]
     if R.random() < 0.5:
@@ -50,7 +54,10 @@ def make(R, with_iscmd):
             ops.append('ISCMD:' + vf.hx(R.choice(pats)))
         if R.random() < 0.3:
             ops.append('PI32:0')
+        if nullcb and R.random() < 0.3:
+            ops = ['NULL']      # an entry without callback: it still is the first match, nothing runs
         table.append((tag, p, ';'.join(ops) if ops else '-'))
+    nulls = set(t for t, _, sc in table if sc == 'NULL')
     units = []
     for _ in range(R.choice([1, 2, 2, 3, 3, 4, 5, 6])):
         h = R.choice(HEADS[ti])
@@ -59,7 +66,7 @@ def make(R, with_iscmd):
             d = R.choice([b' 1', b' 42', b'  7'])
         units.append(R.choice([b'', b'', b' ']) + h + d)
     msg = b';'.join(units) + R.choice([b'\n', b'\r\n'])
-    return gen.scenario(256, 16, table, [('I', msg)]), (pats, units)
+    return gen.scenario(256, 16, table, [('I', msg)]), (pats, units, nulls)
 
 
 def project(case, out):
@@ -79,7 +86,7 @@ def oracle_factory(info):
     def oracle(case, out):
         if out.startswith('X') or case not in info:
             return []
-        pats, units = info[case]
+        pats, units, nulls = info[case]
         hdrs = [u.strip().split(b' ')[0].decode('latin1') for u in units]
         eff = spec.effective_headers(hdrs)
         want = []
@@ -112,7 +119,7 @@ def oracle_factory(info):
                 got.append(('H', int(t), vf.unhx(h).decode('latin1')))
             elif e == 'E-113':
                 got.append(('U',))
-        w2 = [x if x[0] == 'H' else ('U',) for x in want]
+        w2 = [x if x[0] == 'H' else ('U',) for x in want if not (x[0] == 'H' and x[1] in nulls)]
         if got != w2:
             return [('dispatch', 'units %r: handler starts / undefined-header errors were %r, the first-match rule over effective headers %r gives %r' % (units, got, eff, w2))]
         # the -113 entries carry the offending text (the header as received must be in it)
@@ -138,8 +145,18 @@ def streams(tier, rng):
         t = [(0, b"TEST:A?", '-'), (1, b"TEST:B?", '-')]
         c = gen.scenario(256, 16, t, [('I', b"TEST:A?;FOO;B?\r\n")])
         cases.append(c)
-        info[c] = ([b"TEST:A?", b"TEST:B?"], [b"TEST:A?", b"FOO", b"B?"])
+        info[c] = ([b"TEST:A?", b"TEST:B?"], [b"TEST:A?", b"FOO", b"B?"], set())
 
         def nontrivial(c, o):
             return c if o.count(' H') + o.count(' E-113') >= 2 else None
         yield {'name': name, 'coqcheck': True, 'cases': cases, 'model': model, 'project': project, 'oracle': oracle_factory(info), 'nontrivial': nontrivial}
+        if model:
+            # strict ISO C build: the library's own strncasecmp does the keyword comparison
+            yield {'name': name + '-strict-iso', 'flavor': 'strict', 'cases': cases[::3], 'model': False, 'oracle': oracle_factory(info), 'nontrivial': nontrivial}
+    # tables in which some entries have no callback (scpi_command_t.callback == NULL): such an entry is still the first match
+    ncases, ninfo = [], {}
+    for _ in range(n // 4):
+        c, i = make(rng, False, nullcb=True)
+        ncases.append(c)
+        ninfo[c] = i
+    yield {'name': 'dispatch-null-callback', 'cases': ncases, 'model': False, 'oracle': oracle_factory(ninfo), 'nontrivial': lambda c, o: c if ' NULL' in c and o.count(' H') + o.count(' E-113') >= 1 else None}
